@@ -503,6 +503,7 @@ pub fn run_c19_c(ctx: &Ctx) -> Outcome {
             // that is slow to accept), a full fetch is requested meanwhile and stays pending, then a node leaves and
             // the REMOVED_NODE event triggers a partial topology fetch that is merged into the pending update
             let directed = round % 2 == 1;
+            let cc_break = !directed && (round / 2) % 3 == 0;
             if directed {
                 let victim = cluster.add_node(NodeSpec::simple("dc1", "r9", vec![500 + round as i64]), true).await;
                 expected.insert(victim.host_id);
@@ -564,6 +565,13 @@ pub fn run_c19_c(ctx: &Ctx) -> Outcome {
                 if r.bool() {
                     tokio::time::sleep(Duration::from_millis(r.below(40))).await;
                 }
+                // sometimes the control connection breaks in the middle of the burst (all connections of the
+                // contact node are reset): fetches in flight fail, the control connection is re-established,
+                // and the refresh requests that were waiting must still be answered (with a result or an error)
+                if cc_break && step == burst / 2 {
+                    cluster.kill_connections(0, CloseHow::Rst);
+                    o.class("c:control-connection-broken-during-burst");
+                }
                 // sometimes a node that joined earlier in the burst leaves again (decommission): the latest
                 // topology no longer lists it
                 if step >= 1 && r.chance(1, 3) {
@@ -596,6 +604,8 @@ pub fn run_c19_c(ctx: &Ctx) -> Outcome {
                 match tokio::time::timeout(Duration::from_secs(30), h).await {
                     Err(_) => o.violation("c19c:refresh-never-answered", format!("concurrent refresh_metadata() call {i} of {n_ref} did not return within 30 s"), json!({"part": "c", "burst": burst, "events": with_events, "seed": seed})),
                     Ok(Err(join)) => o.violation("c19c:refresh-never-answered", format!("concurrent refresh_metadata() call {i} of {n_ref} was dropped unanswered (the call panicked: {join})"), json!({"part": "c", "burst": burst, "events": with_events, "seed": seed})),
+                    // with the control connection broken under it a refresh may be answered with the error of its fetch
+                    Ok(Ok(Err(_))) if cc_break => o.class("c:concurrent-refresh-answered-with-an-error(control-connection-broken)"),
                     Ok(Ok(Err(e))) => o.violation("c19c:refresh-failed", format!("concurrent refresh_metadata() call {i} failed: {e}"), json!({"part": "c", "burst": burst, "events": with_events, "seed": seed})),
                     Ok(Ok(Ok(()))) => o.class("c:concurrent-refresh-answered"),
                 }
@@ -665,7 +675,17 @@ pub fn run_c19_c(ctx: &Ctx) -> Outcome {
             // (run as a task of its own: if the driver drops the request unanswered the call panics inside the driver)
             let last = {
                 let s2 = session.clone();
-                tokio::spawn(async move { s2.refresh_metadata().await.map_err(|e| e.to_string()) })
+                tokio::spawn(async move {
+                    // (after a control-connection break the first attempts may still hit the re-establishment)
+                    let mut res = s2.refresh_metadata().await.map_err(|e| e.to_string());
+                    let mut tries = 0;
+                    while cc_break && res.is_err() && tries < 20 {
+                        tokio::time::sleep(Duration::from_millis(100)).await;
+                        res = s2.refresh_metadata().await.map_err(|e| e.to_string());
+                        tries += 1;
+                    }
+                    res
+                })
             };
             match tokio::time::timeout(Duration::from_secs(30), last).await {
                 Err(_) => o.violation("c19c:refresh-never-answered", "refresh_metadata() did not return within 30 s although the control node answers at once", json!({"part": "c", "burst": burst, "events": with_events, "seed": seed})),
@@ -693,7 +713,7 @@ pub fn run_c19_c(ctx: &Ctx) -> Outcome {
         });
     }
     o.sample(json!({"part": "c", "rounds": rounds}));
-    for c in ["c:burst-with-events", "c:burst-without-events", "c:state-reflects-latest-topology", "c:concurrent-refresh-answered", "c:node-left-during-burst", "c:quiescent-state-reflects-latest-fetch", "c:directed:node-left-while-full-fetch-pending-and-consumer-busy"] {
+    for c in ["c:burst-with-events", "c:burst-without-events", "c:state-reflects-latest-topology", "c:concurrent-refresh-answered", "c:node-left-during-burst", "c:quiescent-state-reflects-latest-fetch", "c:directed:node-left-while-full-fetch-pending-and-consumer-busy", "c:control-connection-broken-during-burst"] {
         o.require_class(c);
     }
     o
